@@ -249,3 +249,41 @@ Proof.
   - vm_compute. split; reflexivity.
 Qed.
 Print Assumptions C11_pools_exact_nonvacuous.
+
+(* ------------------------------------------------------------------ what today's receiver does guarantee *)
+(* PARTIAL (the full statement C11_converges is refuted for today's code, see C11_converges_today_refuted):
+   with the receiver as it is today, the replicated STORE still converges for every history when each
+   retransmission starts at or before the first undelivered message and runs on without a gap at least to the
+   newest message delivered so far (single in-order deliveries, a duplicate of the newest message and replays of
+   the backlog up to its end are such runs).  Missing with respect to the full property: arbitrary redelivery of
+   older messages (refuted), and the pool reservations (refuted: C11_pools_exact_today_refuted,
+   C11_release_ignores_pool_today_refuted). *)
+Theorem C11_converges_today_partial :
+  forall g0 cap g evs d,
+  g <> 0%N -> (forall e, In e evs -> s_srg (fst e) = g) -> (N.of_nat (length evs) < n64)%N ->
+  let reqs := snd (sender_run [(g, (0%N, new_ring cap))] evs) in
+  delivery_runs reqs 0 d (length reqs) ->
+  forall k, aget keyeqb k (rc_store (recv_run defective (mkrecv [] [] g0) d)) =
+            aget keyeqb k (expected_store (live_run evs)).
+Proof. exact converges_store_today. Qed.
+Print Assumptions C11_converges_today_partial.
+
+Example C11_converges_today_partial_nonvacuous :
+  (* create, update, release of session 1 and a create of session 2; delivered as [1], [1,2] (replay from the start),
+     [2,3,4] (replay overlapping the newest), [4] (duplicate of the newest) *)
+  let s1 := ex_sess 1 (Some ex_a) 1 in
+  let s2 := ex_sess 2 (Some ex_b) 1 in
+  let evs := [(s1, false); (s1, false); (s1, true); (s2, false)] in
+  let reqs := snd (sender_run [(1%N, (0%N, new_ring 8))] evs) in
+  delivery_runs reqs 0 (firstn 1 (skipn 0 reqs) ++ firstn 2 (skipn 0 reqs) ++ firstn 3 (skipn 1 reqs) ++
+                        firstn 1 (skipn 3 reqs) ++ []) 4 /\
+  expected_store (live_run evs) = [((1, 2)%N, s2c s2)].
+Proof.
+  cbv zeta. split; [|vm_compute; reflexivity].
+  apply (dr_run _ 0 0 1); [lia|lia|vm_compute; lia|].
+  apply (dr_run _ 1 0 2); [lia|lia|vm_compute; lia|].
+  apply (dr_run _ 2 1 4); [lia|lia|vm_compute; lia|].
+  apply (dr_run _ 4 3 4); [lia|lia|vm_compute; lia|].
+  apply dr_nil.
+Qed.
+Print Assumptions C11_converges_today_partial_nonvacuous.
